@@ -409,7 +409,7 @@ func mouseCases(g *rig) {
 func main() {
 	r = explore.Start("C13")
 	if r.Replay != "" {
-		r.Fault("replay: hand detail.what to Model.Update with the child modes of detail.child_modes; not implemented")
+		r.ReplayBySearch()
 	}
 	if _, _, arg, ok := r.Worker(); ok {
 		r.Watchdog(60 * time.Second)
